@@ -158,6 +158,37 @@ func c19Check(flag bool, rollup, leaf uint32, wire bool) error {
 	if cert.FEPHashToSign() != wantFEP {
 		return fmt.Errorf("FEP commitment does not carry 0x%x", x)
 	}
+	// the commitments carry EVERY claim's own global index: a second claim with another index, in both orders
+	claim2 := claim
+	claim2.GlobalIndex = ref.GlobalIndex(!flag, rollup^1, leaf+1)
+	ibe2, err := bf0.ConvertClaimToImportedBridgeExit(claim2)
+	if err != nil {
+		return fmt.Errorf("ConvertClaimToImportedBridgeExit: %v", err)
+	}
+	ibe2.ClaimData = ibe.ClaimData
+	le2, exitHash2 := le32(claim2.GlobalIndex), refExitHash(ibe2.BridgeExit)
+	for _, order := range [][2]int{{0, 1}, {1, 0}} {
+		ibes := []*agglayertypes.ImportedBridgeExit{ibe, ibe2}
+		les, ehs := [][]byte{le, le2}, []common.Hash{exitHash, exitHash2}
+		c2 := &agglayertypes.Certificate{NetworkID: 5, Height: 4, NewLocalExitRoot: common.HexToHash("0x77"),
+			ImportedBridgeExits: []*agglayertypes.ImportedBridgeExit{ibes[order[0]], ibes[order[1]]},
+			AggchainData:        &agglayertypes.AggchainDataSignature{Signature: make([]byte, 65)}}
+		var ppChunks, fepChunks [][]byte
+		for _, k := range order {
+			ppChunks = append(ppChunks, crypto.Keccak256(les[k]))
+			fepChunks = append(fepChunks, append(append([]byte{}, les[k]...), ehs[k].Bytes()...))
+		}
+		if c2.PPHashToSign() != crypto.Keccak256Hash(c2.NewLocalExitRoot.Bytes(), crypto.Keccak256(ppChunks...)) {
+			return fmt.Errorf("PP commitment over two claims (order %v) does not carry 0x%x and 0x%x", order, x, claim2.GlobalIndex)
+		}
+		if c2.FEPHashToSign() != crypto.Keccak256Hash(c2.NewLocalExitRoot.Bytes(), crypto.Keccak256(fepChunks...), []byte{4, 0, 0, 0, 0, 0, 0, 0}, crypto.Keccak256(nil)) {
+			return fmt.Errorf("FEP commitment over two claims (order %v) does not carry 0x%x and 0x%x", order, x, claim2.GlobalIndex)
+		}
+		cl := []bridgesync.Claim{claim, claim2}
+		if got := optimistichash.CalculateCommitImportedBrdigeExitsHashFromClaims([]bridgesync.Claim{cl[order[0]], cl[order[1]]}); got != crypto.Keccak256Hash(fepChunks...) {
+			return fmt.Errorf("optimistic commitment over two claims (order %v) does not carry 0x%x and 0x%x", order, x, claim2.GlobalIndex)
+		}
+	}
 	// carrier 5: optimistic commitment over claims
 	wantOpt := crypto.Keccak256Hash(append(append([]byte{}, le...), exitHash.Bytes()...))
 	if got := optimistichash.CalculateCommitImportedBrdigeExitsHashFromClaims([]bridgesync.Claim{claim}); got != wantOpt {
